@@ -2,7 +2,7 @@
 """sweep.py <operator>: operator-based mutation sweep over /repo's non-test sources, analysed as
 overlays (the tree is not modified, nothing is executed). Prints, per mutated site, which
 properties report. Sites no check reports are candidates for review (gap or equivalent mutant).
-operators: fatal2error, reterr2nil, dropcheck"""
+operators: fatal2error, reterr2nil, dropcheck, regex (pattern literals: anchors, quantifiers, lazy/greedy)"""
 import sys,re,os,subprocess,glob,difflib
 from concurrent.futures import ThreadPoolExecutor
 op=sys.argv[1]
@@ -17,7 +17,27 @@ for f in sorted(files):
         if op=='fatal2error' and re.search(r'logger\.(Fatal|Panic)\(\)',l): new=re.sub(r'logger\.(Fatal|Panic)\(\)','logger.Error()',l)
         if op=='reterr2nil' and re.match(r'^\s*return (.*, )?err$',l): new=re.sub(r'err$','nil',l)
         if op=='dropcheck' and re.match(r'^\s*if err != nil \{$',l): new=l.replace('err != nil','err != nil && false')
-        if new is None or new==l: continue
+        news=[new] if new is not None and new!=l else []
+        if op=='regex':
+            m=re.search(r'MustCompile\(`([^`]*)`\)',l)
+            if m:
+                pat=m.group(1); vs=[]
+                if pat.startswith('^'): vs.append(pat[1:])
+                if pat.endswith('$') and not pat.endswith('\\$'): vs.append(pat[:-1])
+                for a_,b_ in (('+','*'),('\\s*','\\s+'),('\\s+','\\s*'),('(.*)','(.*?)'),('(.*?)','(.*)'),('\\d{6}','\\d+'),('(?:','('),('\\S+','.+'),('[a-z]+','[a-zA-Z]+')):
+                    k=pat.find(a_)
+                    if k>=0: vs.append(pat[:k]+b_+pat[k+len(a_):])
+                seenv=set()
+                for v in vs:
+                    if v!=pat and v not in seenv:
+                        seenv.add(v); news.append(l.replace('`'+pat+'`','`'+v+'`'))
+        for vi,new in enumerate(news):
+          ml=lines[:]; ml[i]=new
+          rel=os.path.relpath(f,'/repo')
+          d=''.join(difflib.unified_diff([x+'\n' for x in lines],[x+'\n' for x in ml],'a/'+rel,'b/'+rel,n=3))
+          p=f'{out}/{rel.replace("/","_")}_{i+1}_{vi}.diff'; open(p,'w').write(d)
+          sites.append((rel,i+1,new.strip(),p))
+        continue
         ml=lines[:]; ml[i]=new
         rel=os.path.relpath(f,'/repo')
         d=''.join(difflib.unified_diff([x+'\n' for x in lines],[x+'\n' for x in ml],'a/'+rel,'b/'+rel,n=3))
